@@ -34,6 +34,7 @@ def genHex15 (seed : Nat) (maxLen : Nat) (randomCases : Nat) : Array String := I
       out := out.push s!"hex rangefull {h}"
       out := out.push s!"hex roundtrip {h}"
       out := out.push s!"hex tobits {h}"
+      out := out.push s!"hex fmt {h}"
       out := out.push s!"hex bool {h}"
       out := out.push s!"hex utf8 {h}"
       let idx := (List.range (len + 3)) ++ [maxU, maxU - 1]
